@@ -10,59 +10,10 @@
 -/
 import WS.Lemmas.AppReconn
 import WS.Lemmas.AppHoare
+import WS.Lemmas.AppRes
 namespace WS.Props.C15
 open WS WS.Model.App WS.Lemmas.App
 open WS.Spec.AppTrace (cbOnly expectedConn reportTrace)
-
-/-- the network skeleton of a trace: connection attempts, sleeps, transport releases, the return -/
-def netOnly (tr : Trace) : Trace :=
-  tr.filter fun te => match te.2 with
-    | .dial _ | .sleep _ | .sockClosed _ | .sockDropped _ | .returned _ => true
-    | _ => false
-
-theorem netOnly_append (a b : Trace) : netOnly (a ++ b) = netOnly a ++ netOnly b := by simp [netOnly]
-
-theorem netOnly_cbTrace (c : Cfg) (calls : Cb → Nat) (t : Nat) (cb : Cb) (args : List Arg) :
-    netOnly (cbTrace c calls t cb args) = [] := by
-  unfold cbTrace netOnly
-  split
-  · rfl
-  · split <;> simp
-
-/-- retries after the first failed attempt at tick `t`: sleep r, then the next attempt exactly r later -/
-def retryTrace (r : Nat) : Nat → Nat → Nat → Trace
-  | _, _, 0 => []
-  | t, i, n + 1 => [(t, .sleep r), (t + r, .dial i), (t + r, .sockClosed i)] ++ retryTrace r (t + r) (i + 1) n
-
-theorem netOnly_wrote (t op : Nat) (p : Bytes) : netOnly [(t, Ev.wrote op p)] = [] := rfl
-
-theorem applyLegal_net (c : Cfg) (s : St) (e : TEv) : netOnly (applyLegal c s e).trace = netOnly s.trace := by
-  unfold applyLegal
-  cases e.ev <;> simp only [netOnly_append, netOnly_cbTrace, netOnly_wrote, List.append_nil]
-
-theorem runLegal_net (c : Cfg) : ∀ (l : List TEv) (s : St), netOnly (runLegal c s l).trace = netOnly s.trace := by
-  intro l
-  induction l with
-  | nil => intro s; rfl
-  | cons e r ih => intro s; simp only [runLegal, List.foldl_cons] at ih ⊢; rw [ih, applyLegal_net]
-
-theorem afterFails_net (r : Nat) : ∀ (ds : List Dial) (s : St),
-    netOnly (afterFails r s ds).trace = netOnly s.trace ++ retryTrace r s.now s.nextIdx ds.length ∧
-    (afterFails r s ds).now = s.now + ds.length * r ∧ (afterFails r s ds).nextIdx = s.nextIdx + ds.length ∧
-    cbOnly (afterFails r s ds).trace = cbOnly s.trace ∧ (afterFails r s ds).calls = s.calls := by
-  intro ds
-  induction ds with
-  | nil => intro s; simp [afterFails, retryTrace]
-  | cons d l ih =>
-    intro s
-    obtain ⟨h1, h2, h3, h4, h5⟩ := ih (failStep r s)
-    simp only [afterFails, List.foldl_cons, List.length_cons] at h1 h2 h3 h4 h5 ⊢
-    refine ⟨?_, ?_, ?_, ?_, ?_⟩
-    · rw [h1]; simp [failStep, netOnly_append, retryTrace, netOnly]
-    · rw [h2]; simp only [failStep]; rw [Nat.add_mul]; omega
-    · rw [h3]; simp only [failStep]; omega
-    · rw [h4]; simp [failStep, cbOnly]
-    · rw [h5]; rfl
 
 /-- **C15_retry / C15_interval / C15_stops (server close)** — reconnect interval `r > 0`, callbacks that return
     or raise, any subset of callbacks; the first attempt `d` and then every attempt in `ds` (any number) is
@@ -178,6 +129,30 @@ theorem C15_stops :
   rcases teardown_P c hco _ (some body) h4 with td | ⟨q, _, _, _⟩
   · exact Or.inl td
   · exact Or.inr q
+
+/-- **C15_resources** — for EVERY world (any dial outcomes and server histories), every callback plan (callbacks may
+    return, raise, call close() or raise KeyboardInterrupt at any invocation -- also on_error / on_close),
+    every schedule of the ping thread, keepalive and reconnection on or off, plain or TLS-style: started on
+    an object without socket and ping thread (as after construction or after any run that returned), a call
+    of run_forever never has more than one transport open and never more than one ping thread alive, at any
+    point of its trace; and the counts at the end agree with the object's state. -/
+theorem C15_resources (c : Cfg) (s0 : St) (h : RI s0) (hs : s0.sock = none) (hp : s0.ping = none) :
+    Spec.AppTrace.resourcesBounded (runForever c s0).trace 0 0 = true ∧ RI (runForever c s0) :=
+  ⟨(ri_runForever c s0 h hs hp).bnd, ri_runForever c s0 h hs hp⟩
+
+/-- a freshly constructed object satisfies the hypotheses of `C15_resources`, whatever the world -/
+theorem C15_resources_fresh (c : Cfg) (w : List Dial) :
+    Spec.AppTrace.resourcesBounded (runForever c { dials := w }).trace 0 0 = true :=
+  (C15_resources c { dials := w } ⟨rfl, rfl, rfl⟩ rfl rfl).1
+
+/-- after a run that returned, nothing is left: no open transport, no live ping thread (counted on the
+    trace), so the next run starts from the hypotheses of `C15_resources` again -/
+theorem C15_resources_after_return (c : Cfg) (hco : CloseOk c) (s0 : St) (h : RI s0) (hs : s0.sock = none)
+    (hp : s0.ping = none) (b : Bool) (hr : (runForeverO c s0).2 = .returned b) :
+    Spec.AppTrace.live (runForever c s0).trace = 0 ∧ Spec.AppTrace.livePings (runForever c s0).trace = 0 := by
+  have r := ri_runForever c s0 h hs hp
+  obtain ⟨c1, c2, _⟩ := returned_clean c hco s0 b hr
+  exact ⟨by rw [r.lv]; simp [openSock, c1, b2i], by rw [r.pg, c2]; simp [b2i]⟩
 
 /-- a world with an established connection that is lost (end of stream), a refused retry and a second
     connection closed by the server, reconnect = 1 s: network skeleton and callbacks (evaluated by the kernel) -/
